@@ -318,17 +318,26 @@ def rule_ar1(A: Analysis, rep):
         rep.check(ok, "AR2", "archive deletes only its own files", call, "", "`%s` in cond archive touches `%s`" % (kind, tgt[:80]))
     # compute_tasks_to_archive: archivable tasks of the closure
     ct = A.fn("cli.archive.compute_tasks_to_archive")
-    vis = ct.nested.get("append_if_archivable")
-    ok = False
-    if vis is not None:
-        body = [norm(s) for s in vis.node.body]
-        t = vis.params[0]
-        gv = A.cfg(vis, "plain")
-        apps = [n for n in gv.nodes if n.kind == "stmt" and norm(n.ast) == "relevant_tasks.append(%s.identifier)" % t]
-        ok = len(apps) == 1 and A.path_guards(gv, gv.entry, apps[0], vis) == [frozenset({("t(%s.archivable)" % t, True)})]
     tr = [c for c in walk_local(ct.node) if isinstance(c, ast.Call) and A.res.is_call_to(c, "TaskType.traverse")]
-    ok = ok and len(tr) == 1 and norm(tr[0].args[1]) == "append_if_archivable" and any(
-        isinstance(c, ast.Call) and A.res.is_call_to(c, "TaskIndex.load_transitive_closure") for c in walk_local(ct.node))
+    ok = False
+    if len(tr) == 1 and len(tr[0].args) >= 2 and isinstance(tr[0].args[1], ast.Name):
+        vis = ct.nested.get(tr[0].args[1].id)
+        # the list that is returned (besides the early `return None` for "no task named")
+        rnames = {norm(r.value) for r in walk_local(ct.node) if isinstance(r, ast.Return) and r.value is not None and norm(r.value) != "None"}
+        if vis is not None and len(rnames) == 1:
+            res = rnames.pop()
+            t = vis.params[0]
+            gv = A.cfg(vis, "plain")
+            apps = [n for n in gv.nodes if n.kind == "stmt" and isinstance(n.ast, ast.Expr) and isinstance(n.ast.value, ast.Call) and
+                    isinstance(n.ast.value.func, ast.Attribute) and norm(n.ast.value.func.value) == res and n.ast.value.func.attr in ("append", "add")]
+            init = A.single_def_value(ct, res)
+            ok = len(apps) == 1 and norm(apps[0].ast.value.args[0]) == "%s.identifier" % t and \
+                A.path_guards(gv, gv.entry, apps[0], vis) == [frozenset({("t(%s.archivable)" % t, True)})] and init is not None and norm(init) in ("[]", "list()")
+            # the traversal starts at the named task
+            recv = A.xtext(tr[0].func.value, ct, stop=[n_.id for n_ in ast.walk(ct.node) if isinstance(n_, ast.Name) and isinstance(n_.ctx, ast.Store) and "from_str" in norm(getattr(n_, "_parent", n_))])
+            ltc = [c for c in walk_local(ct.node) if isinstance(c, ast.Call) and A.res.is_call_to(c, "TaskIndex.load_transitive_closure")]
+            ok = ok and len(ltc) == 1 and ltc[0].args and recv.endswith(".task_index.get_task(%s)" % norm(ltc[0].args[0]))
+    ok = ok and any(isinstance(c, ast.Call) and A.res.is_call_to(c, "TaskIndex.load_transitive_closure") for c in walk_local(ct.node))
     rep.check(ok, "AR1", "named task ⇒ archivable tasks of its closure", ct.node, "", "compute_tasks_to_archive no longer collects exactly the archivable tasks of the closure")
     ov = sorted(f.cls.name for f in A.prog.overriders("conductor.task_types.base.TaskType", "archivable"))
     rep.check(ov == ["RunExperiment", "TaskType"], "AR1", "only experiments are archivable", None, "", "archivable is defined by %s" % ov, deep=False)
